@@ -90,6 +90,7 @@ func (e *Engine) initExt() {
 	e.ext = map[string]*ExtSpec{}
 	e.extMethods = map[string]*ExtSpec{}
 	e.initHOF()
+	defer e.initExt3()
 	defer e.initExt2()
 
 	pure := func(names []string, doc string) {
